@@ -162,3 +162,98 @@ func twoFileLoggers(prev []byte, a1, b, a2 []string, other []byte) (got, want st
 	bs, err := os.ReadFile(path)
 	return HEX(bs), HEX(w), err
 }
+
+// loggerAcrossConnections: ONE file logger (created by the caller, closed by the caller at the very end) serves as I/O log of
+// several consecutive connections to a device, each opened with NewRegisterApi and closed with api.Close(): once the
+// logger is closed the file holds the previous content and then every line of every connection, in order
+func loggerAcrossConnections(s *Sink, rng *Rng) {
+	for round := 0; round < 4; round++ {
+		f, err := os.CreateTemp("", "verif-filelog3-*")
+		if err != nil {
+			return
+		}
+		path := f.Name()
+		prev := []byte("previous content\n")
+		if round%2 == 1 {
+			prev = nil
+		}
+		f.Write(prev)
+		f.Close()
+		fl, err := vedirectapi.NewFileLogger(path)
+		if err != nil {
+			os.Remove(path)
+			return
+		}
+		nconn := 2 + round
+		wantLines := 0
+		for c := 0; c < nconn; c++ {
+			dev := NewDevPort(0xA231)
+			dev.Regs[0xEDF0] = DevAnswer{0, []byte{byte(c), 0}}
+			cfg := vedirect.Config{IoLogger: fl}
+			if round == 3 {
+				cfg.DebugLogger = fl // one logger for both purposes
+			}
+			api, err := vedirectapi.NewRegisterApi(dev, cfg)
+			if err != nil {
+				s.Violate(fmt.Sprintf("FL one-logger-for-%d-connections", nconn), "connect failed", fmt.Sprintf("connection %d with the shared file logger failed: %v", c, err))
+				break
+			}
+			v, err := api.Vd.GetUint(0xEDF0)
+			if err != nil || v != uint64(c) {
+				s.Violate(fmt.Sprintf("FL one-logger-for-%d-connections", nconn), fmt.Sprint(v, err), "a read with the shared file logger gave a wrong result")
+			}
+			wantLines += 3 // ping, device id, the read
+			api.Close()
+		}
+		fl.Println("// trailer written by the caller")
+		cerr := fl.Close()
+		b, _ := os.ReadFile(path)
+		os.Remove(path)
+		s.Extra["file_logger_across_connections"]++
+		if round == 3 {
+			continue // with the debug log in the same file only the presence of the trailer is checked below
+		}
+		got := string(b)
+		op := fmt.Sprintf("FL %s - mut:one-logger-for-%d-connections", HEX(prev), nconn)
+		if cerr != nil || !strings.HasPrefix(got, string(prev)) {
+			s.Violate(op, HEX(b[:min(len(b), 80)]), fmt.Sprintf("file logger shared by %d connections: Close()=%v, the file does not start with the previous content", nconn, cerr))
+			continue
+		}
+		lines := strings.Split(strings.TrimSuffix(got[len(prev):], "\n"), "\n")
+		if len(lines) != wantLines+1 || lines[len(lines)-1] != "// trailer written by the caller" {
+			s.Violate(op, fmt.Sprintf("%d lines", len(lines)), fmt.Sprintf("file logger shared by %d connections (each closed with api.Close()): the file holds %d lines after the previous content, want %d I/O lines (ping, id, one read per connection) and the caller's trailer; last line %q", nconn, len(lines), wantLines, lines[len(lines)-1]))
+		}
+	}
+}
+
+// ---------- logger implementations ----------
+
+// valLogger: a logger implemented on a plain struct with a value receiver (`type stdoutLogger struct{...}`), funcLogger: a
+// function adapter - both as legal as a pointer type
+type valLogger struct{ c *capLogger }
+
+func (l valLogger) Println(v ...any) { l.c.Println(v...) }
+
+type funcLogger func(v ...any)
+
+func (f funcLogger) Println(v ...any) { f(v...) }
+
+type strLogger string // a named string type: not a pointer, not nillable
+
+var strLoggerSink = map[strLogger]*capLogger{}
+
+func (l strLogger) Println(v ...any) { strLoggerSink[l].Println(v...) }
+
+func loggerOfKind(kind int, c *capLogger) vedirect.Logger {
+	switch kind % 4 {
+	case 1:
+		return valLogger{c}
+	case 2:
+		return funcLogger(c.Println)
+	case 3:
+		name := strLogger(fmt.Sprintf("logger-%p", c))
+		strLoggerSink[name] = c
+		return name
+	}
+	return c
+}
